@@ -593,7 +593,10 @@ def _alarm(sig, frm):
 def _budget_for(qn, timeout_ms):
     """Seconds one (function, variant) may take; contracts that need a larger solver budget get a proportionally larger one."""
     base = int(os.environ.get("PYVC_FUNCTION_BUDGET_S", "150" if timeout_ms <= 10000 else "900"))
-    need = getattr(load_all()[1].get(qn), "min_timeout_ms", 0)
+    con = load_all()[1].get(qn)
+    if getattr(con, "frame_only", False) and timeout_ms <= 10000 and "PYVC_FUNCTION_BUDGET_S" not in os.environ:
+        base = 60           # the three large parsers do not finish in the quick tier anyway; what was decided is kept
+    need = getattr(con, "min_timeout_ms", 0)
     return max(base, 6 * need // 1000) if need > timeout_ms else base
 
 
@@ -756,7 +759,8 @@ def summarise(prop, tier, results, wall, contracts):
                 continue
             n_ob += 1
             solver_s += ob["solver_s"]
-            by_backend[ob["backend"]] = by_backend.get(ob["backend"], 0) + 1
+            bk = ob["backend"] or "not-sent (path outside the verifier's subset)"
+            by_backend[bk] = by_backend.get(bk, 0) + 1
             slow.append((ob["solver_s"], ob["name"]))
             if ob["status"] == "proved":
                 n_ok += 1
